@@ -48,9 +48,12 @@ def cases(tier, seed):
     return out
 
 
-def expected_exits(m):
+def expected_exits(m, ignore_templating=False):
     shown = m["shown"]
-    blocked = max(m["n_unfiltered_tmp_prs"], m.get("truth_tmp_prs", 0)) > 0 and not m["fix_even_unparsable"]
+    # NOTE: with ignore=templating the Jinja templater renders undefined variables instead of failing, so the
+    # suppression-free ground truth would report errors that do not exist in the run being judged.
+    n_err = m["n_unfiltered_tmp_prs"] if ignore_templating else max(m["n_unfiltered_tmp_prs"], m.get("truth_tmp_prs", 0))
+    blocked = n_err > 0 and not m["fix_even_unparsable"]
     lint = 1 if any(not w for _, w, _, _ in shown) else 0
     fix = 0
     for code, warn, fixable, is_tp in shown:
@@ -117,7 +120,7 @@ def run_multi(case):
             if "shown" not in m:
                 return {"status": "skip", "counters": {"model_run_failed": 1}, "detail": m}
             models[rel] = m
-            l, f = expected_exits(m)
+            l, f = expected_exits(m, "templating" in (base["config"]["core"].get("ignore") or ""))
             exp_l, exp_f = max(exp_l, l), max(exp_f, f)
         rc_l = pj.cli(["lint", ".", "--nocolor"])[0]
         rc_f = pj.cli(["fix", ".", "--nocolor"])[0]
@@ -145,7 +148,8 @@ def run_case(case):
         m = pj.api("model")
         if "shown" not in m:
             return {"status": "skip", "counters": {"model_run_failed": 1}, "detail": m}
-        e_lint, e_fix = expected_exits(m)
+        ig_t = "templating" in (scen["config"]["core"].get("ignore") or "")
+        e_lint, e_fix = expected_exits(m, ig_t)
         sql = scen["sql"]
         obs = {}
         obs["lint_path"] = pj.cli(["lint", pj.rel, "--nocolor"])[0]
@@ -161,7 +165,7 @@ def run_case(case):
                 mf["fix_even_unparsable"] = False  # `sqlfluff format` never fixes unparsable files
                 pj.write()
                 obs["format_path"] = pj.cli(["format", pj.rel, "--nocolor"])[0]
-                want["format_path"] = expected_exits(mf)[1]
+                want["format_path"] = expected_exits(mf, ig_t)[1]
         for k, w in want.items():
             counters["exit_codes_compared"] += 1
             if obs[k] != w:
